@@ -516,6 +516,21 @@ def unicode_case(rng):
     return dict(kind=rng.choice(['fd', 'fd', 'pty']), encoding='utf-8', arrivals=arrivals, ops=ops)
 
 
+def tail_case(rng):
+    """the last output and the end of the stream are there together before anyone reads (a child that printed and exited): a blocking call
+    that matches early in it leaves text pending after the read that met the end - the calls that follow still find it, awaited or not"""
+    words = ['foo', 'bar', 'baz', 'qux', 'ab', 'xy']
+    picked = [rng.choice(words) for _ in range(rng.randrange(3, 6))]
+    text = ' '.join(picked)
+    arrivals = [[0.1, 'w', text], [rng.choice([0.0, 0.0, 0.1]), 'c']]
+    ops = [dict(mode='s', k=rng.choice('xr'), pats=[], T=1.043, gap=0.5)]
+    for w in picked[1:rng.randrange(2, len(picked) + 1)]:
+        ops.append(dict(mode=rng.choice('aaas'), k=rng.choice('xr'), pats=[], T=rng.choice([0.571, 1.043]), gap=rng.choice([0, 0, 0.2])))
+    for op, w in zip(ops, picked):
+        op['pats'] = [['s', w] if op['k'] == 'x' else ['re', 's', X.lit(w)]] + ([['E']] if rng.random() < 0.6 else [])
+    return dict(kind=rng.choice(['pty', 'pty', 'fd']), arrivals=arrivals, ops=ops)
+
+
 def cancel_case(rng):
     """an awaited call that the caller cancels (outer wait_for), output that arrives while no call is outstanding, then more calls;
     exact search / small patterns so that the search buffer is trimmed while text is pending"""
@@ -603,6 +618,8 @@ def run(ctx):
         cases.append(unicode_case(ctx.rng))
     for _ in range(40 if ctx.quick() else 400):
         cases.append(cancel_case(ctx.rng))
+    for _ in range(30 if ctx.quick() else 300):
+        cases.append(tail_case(ctx.rng))
     cases += [copy.deepcopy(c) for _, c in KNOWN_CASES]
     runs = []
     hist = collections.Counter()
